@@ -136,7 +136,7 @@ def finish(pid, tier, seed, parts, wall_s, level_text, trusted_base, checker_cmd
         lines.append("VIOLATION property=%s replay=%s" % (pid, p))
     ev = {
         "property_id": pid,
-        "tier": tier,
+        "tier": "thorough" if tier == "deep" else tier,
         "seed": seed,
         "level": "proof",
         "coverage": {
